@@ -3,7 +3,8 @@
    and the _upper mark that only moves forward). Definitions only.
 
    What is a parameter, not computed:
-   - the iteration order of the Go map `rawhosts` (`hostorder`);
+   - the order in which the hosts of `rawhosts` are visited (`hostorder`): Go map order
+     until /repo 5f31221, sorted since (`rebuild_current`); the theorems cover every order;
    - sort.Slice is modelled as the insertion sort Go uses for slices of at most 12
      elements (`gosort`); for longer slices Go's pdqsort may order elements that
      compare equal differently, which is why the general theorem in Proofs/Maps.v is
@@ -160,11 +161,26 @@ Definition rebuild_with (fsort : mtype -> list entry -> list entry)
 Definition host_entries (entries : list entry) (h : str) : list entry :=
   filter (fun e => str_eqb (ehost e) h) entries.
 
-(* the model run by the correspondence check: entries in the order of the addTarget
-   calls, hosts of `rawhosts` visited in `hostorder` *)
+(* rebuildMatchFiles with the hosts of `rawhosts` visited in `hostorder`; entries in the
+   order of the addTarget calls *)
 Definition rebuild (mo : list mtype) (hostorder : list str) (entries : list entry) : list matchfile :=
   rebuild_with (fun t => gosort (file_less t)) mo
     (map (fun h => gosort host_less (host_entries entries h)) hostorder) entries.
+
+(* Since /repo 5f31221 the keys of `rawhosts` are collected and passed to sort.Strings:
+   the hosts are visited in byte-wise ascending order (before, in Go map order, which
+   is why the theorems are stated for every `hostorder`). *)
+Fixpoint dedup (seen : list str) (l : list str) : list str :=
+  match l with
+  | [] => []
+  | x :: r => if existsb (str_eqb x) seen then dedup seen r else x :: dedup (x :: seen) r
+  end.
+Definition sorted_hosts (entries : list entry) : list str :=
+  gosort str_ltb (dedup [] (map ehost entries)).
+
+(* the model run by the correspondence check *)
+Definition rebuild_current (mo : list mtype) (entries : list entry) : list matchfile :=
+  rebuild mo (sorted_hosts entries) entries.
 
 (* ---------- inputs of the theorems: one AddHostnamePathMapping call *)
 Record fed := { fhost : str; fpath : str; ftyp : mtype; forder : N; ftarget : str }.
